@@ -98,6 +98,15 @@ def c05(work, tier, seed, replay):
         drift += int(m.group(1)) if m else 0
         rejected += [(store, r, tp) for r in judge_in_chunks(work, rep, tp, 4, "gated-" + store)]
         rep.cov["traces_validated_against_impl"] += len(runs)
+        # op-level binding: the storage calls of these runs are behaviours of WitnessOps (a rejection is model drift, reported, not a verdict)
+        groups = ["Sc_TofuFork", "Sc_GrowFork", "Sc_GrowRead", "Sc3_TofuForkRead"] if tier == "quick" else [s_ for s_, st_, e_ in plan if st_ == store and e_]
+        for scen in dict.fromkeys(groups):
+            v = ops_trace_validate(work, rep, tp, scen, dict(SCEN2, **SCEN3, **SCEN4)[scen], store)
+            if v:
+                rep.cov.setdefault("storage_call_traces_validated_against_WitnessOps", []).append(v)
+                if not v["accepted"]:
+                    drift += 1
+                    rep.notes.append("op-level drift: %s" % json.dumps(v)[:600])
     # free-running goroutines under the race detector
     for store, (free_runs, ng, nops) in [(st_, sh_) for st_ in ("InMem", "Sql1") for sh_ in free_shapes]:
         free_shape = (ng, nops)
